@@ -78,10 +78,11 @@ Definition G0 (s s' : vsock) : Prop :=
   (v_inbox s = [] -> v_inbox s' = []) /\
   v_inbox_closed s' = v_inbox_closed s.
 
-(* nobody but transition_to_fin_wait_1 moves into FinWait1; the arm of the receive loop that runs
-   when the dispatcher's channel is closed calls it too, hence the guard *)
+(* nobody but transition_to_fin_wait_1 moves into FinWait1.  (The arm of the receive loop that runs
+   when the dispatcher's channel is closed calls it too, but sets the state to Closed at once; only
+   when its FIN cannot be sent does the state stay FinWait1: see [GE] below.) *)
 Definition W (s s' : vsock) : Prop :=
-  v_inbox_closed s = false -> forall f, v_state s' = FinWait1 f -> v_state s = FinWait1 f.
+  forall f, v_state s' = FinWait1 f -> v_state s = FinWait1 f.
 
 Definition G (s s' : vsock) : Prop := G0 s s' /\ W s s'.
 
@@ -105,8 +106,7 @@ Proof. split; [apply G0_refl|apply W_refl]. Qed.
 Lemma G_trans a b c : G a b -> G b c -> G a c.
 Proof.
   intros (A & WA) (B & WB). split; [eapply G0_trans; eauto|].
-  intros Hc f Hf. apply WA; [exact Hc|]. apply WB; [|exact Hf].
-  destruct A as (_ & _ & _ & A5). congruence.
+  intros f Hf. apply WA. apply WB. exact Hf.
 Qed.
 
 Lemma G_G0 a b : G a b -> G0 a b.
@@ -120,7 +120,7 @@ Proof.
   intros E1 E2 E3 E4. split.
   - split; [rewrite E1; apply st_rel_refl|]. split; [exists []; split; [exact E2|constructor]|].
     split; [congruence|exact E4].
-  - intros _ f Hf. congruence.
+  - intros f Hf. congruence.
 Qed.
 
 Lemma G_emit (s s' : vsock) p :
@@ -131,7 +131,7 @@ Proof.
   - split; [rewrite E1; apply st_rel_refl|].
     split; [exists [p]; split; [exact E2|constructor; [rewrite E1; exact Hp|constructor]]|].
     split; [congruence|exact E4].
-  - intros _ f Hf. congruence.
+  - intros f Hf. congruence.
 Qed.
 
 Lemma G_state (s s' : vsock) :
@@ -141,17 +141,33 @@ Lemma G_state (s s' : vsock) :
 Proof.
   intros E1 E2 E3 E4 E5. split.
   - split; [exact E1|]. split; [exists []; split; [exact E2|constructor]|]. split; [exact E3|exact E4].
-  - intros _. exact E5.
+  - exact E5.
 Qed.
 
 Ltac g_same := apply G_same; vsimpl; reflexivity.
 
 (* ------------------------------------------------------------------ step results *)
+(* the state an error leaves behind: as [G], except that the channel-closed arm of the receive loop
+   leaves FinWait1 behind when its FIN cannot be sent (the error is then ErrSend) *)
+Definition GE (s s' : vsock) (e : verror) : Prop :=
+  G0 s s' /\ (W s s' \/ (v_inbox_closed s = true /\ e = ErrSend)).
+
+Lemma GE_G s s' e : G s s' -> GE s s' e.
+Proof. intros [H1 H2]. split; [exact H1|left; exact H2]. Qed.
+
+Lemma GE_trans a b c e : G a b -> GE b c e -> GE a c e.
+Proof.
+  intros (A & WA) (B & HB). split; [eapply G0_trans; eauto|].
+  destruct HB as [WB|(Hc & He)].
+  - left. intros f Hf. apply WA. apply WB. exact Hf.
+  - right. split; [|exact He]. destruct A as (_ & _ & _ & A5). congruence.
+Qed.
+
 (* [sG]: an error is never the reset error.  [sGr]: no claim on the error (incoming path). *)
 Definition sG {A} (s : vsock) (m : step A) : Prop :=
-  match m with SOk s' _ => G s s' | SErr s' e => G s s' /\ e <> ErrStResetReceived | SPanic => True end.
+  match m with SOk s' _ => G s s' | SErr s' e => GE s s' e /\ e <> ErrStResetReceived | SPanic => True end.
 Definition sGr {A} (s : vsock) (m : step A) : Prop :=
-  match m with SOk s' _ => G s s' | SErr s' e => G s s' | SPanic => True end.
+  match m with SOk s' _ => G s s' | SErr s' e => GE s s' e | SPanic => True end.
 
 Lemma sG_sGr {A} s (m : step A) : sG s m -> sGr s m.
 Proof. destruct m; cbn [sG sGr]; tauto. Qed.
@@ -162,24 +178,27 @@ Proof.
   intros Hm Hf. destruct m as [s1 a|s1 e|]; cbn [sbind sG] in *; auto.
   specialize (Hf s1 a). destruct (f s1 a); cbn [sG] in *; auto.
   - eapply G_trans; eauto.
-  - destruct Hf as [Hf He]. split; [eapply G_trans; eauto|exact He].
+  - destruct Hf as [Hf He]. split; [eapply GE_trans; eauto|exact He].
 Qed.
 
 Lemma sGr_bind {A B} s (m : step A) (f : vsock -> A -> step B) :
   sGr s m -> (forall s1 a, sGr s1 (f s1 a)) -> sGr s (sbind m f).
 Proof.
   intros Hm Hf. destruct m as [s1 a|s1 e|]; cbn [sbind sGr] in *; auto.
-  specialize (Hf s1 a). destruct (f s1 a); cbn [sGr] in *; auto; eapply G_trans; eauto.
+  specialize (Hf s1 a). destruct (f s1 a); cbn [sGr] in *; auto;
+    [eapply G_trans; eauto|eapply GE_trans; eauto].
 Qed.
 
 Lemma sG_weaken {A} s0 s (m : step A) : G s0 s -> sG s m -> sG s0 m.
 Proof.
   intros H Hm. destruct m; cbn [sG] in *; auto; [eapply G_trans; eauto|].
-  destruct Hm as [Hm He]. split; [eapply G_trans; eauto|exact He].
+  destruct Hm as [Hm He]. split; [eapply GE_trans; eauto|exact He].
 Qed.
 
 Lemma sGr_weaken {A} s0 s (m : step A) : G s0 s -> sGr s m -> sGr s0 m.
-Proof. intros H Hm. destruct m; cbn [sGr] in *; auto; eapply G_trans; eauto. Qed.
+Proof.
+  intros H Hm. destruct m; cbn [sGr] in *; auto; [eapply G_trans; eauto|eapply GE_trans; eauto].
+Qed.
 
 (* ------------------------------------------------------------------ sending *)
 Lemma next_send_G (s : vsock) n s1 o : next_send s n = (s1, o) -> G s s1.
@@ -194,8 +213,8 @@ Proof.
   - destruct E as [->|[r ->]]; unfold on_packet_sent, emit;
       (eapply G_emit; vsimpl; [reflexivity..|exact Hk]).
   - destruct E as [->|[r ->]]; g_same.
-  - split; [destruct E as [->|[r ->]]; [apply G_refl|g_same]|discriminate].
-  - split; [destruct E as [->|[r ->]]; [apply G_refl|g_same]|discriminate].
+  - split; [apply GE_G; destruct E as [->|[r ->]]; [apply G_refl|g_same]|discriminate].
+  - split; [apply GE_G; destruct E as [->|[r ->]]; [apply G_refl|g_same]|discriminate].
 Qed.
 
 Lemma send_ack_G (s : vsock) : sG s (send_ack s).
@@ -212,9 +231,9 @@ Qed.
 
 Lemma send_data_G (s : vsock) h f : sG s (send_data s h f).
 Proof.
-  unfold send_data. destruct (_ =? _); [split; [apply G_refl|discriminate]|].
-  destruct (_ <? 0); [exact I|]. destruct (_ <? _); [split; [apply G_refl|discriminate]|].
-  destruct (_ <? _); [split; [apply G_refl|discriminate]|].
+  unfold send_data. destruct (_ =? _); [split; [apply GE_G, G_refl|discriminate]|].
+  destruct (_ <? 0); [exact I|]. destruct (_ <? _); [split; [apply GE_G, G_refl|discriminate]|].
+  destruct (_ <? _); [split; [apply GE_G, G_refl|discriminate]|].
   destruct (next_send s _) as [s1 o] eqn:E. apply next_send_same in E.
   destruct o; cbn [sG].
   - cbv zeta. unfold on_packet_sent, emit.
@@ -223,7 +242,7 @@ Proof.
       (eapply G_emit; vsimpl; [reflexivity..|apply hk_ok_data]).
   - destruct E as [->|[r ->]]; g_same.
   - destruct E as [->|[r ->]]; [apply G_refl|g_same].
-  - split; [destruct E as [->|[r ->]]; [apply G_refl|g_same]|discriminate].
+  - split; [apply GE_G; destruct E as [->|[r ->]]; [apply G_refl|g_same]|discriminate].
 Qed.
 
 Lemma on_rto_reactions_G s s' : on_rto_reactions cci s = Some s' -> G s s'.
@@ -236,7 +255,7 @@ Proof.
   destruct (negb _); [apply G_refl|].
   destruct (_ && _); [apply IH|]. destruct (_ && _); [apply G_refl|].
   pose proof (send_data_G s h f) as Hd. destruct (send_data s h f) as [s1 r|s1 e|]; cbn [sG] in *; auto.
-  destruct r; cbn [sG]; auto; [eapply sG_weaken; [exact Hd|apply IH]|split; [exact Hd|discriminate]].
+  destruct r; cbn [sG]; auto; [eapply sG_weaken; [exact Hd|apply IH]|split; [apply GE_G; exact Hd|discriminate]].
 Qed.
 
 Lemma new_data_loop_G : forall items s h rem, sG s (new_data_loop items s h rem).
@@ -265,7 +284,7 @@ Proof.
       cbn [sG]. eapply G_trans; [exact E|]. g_same.
     - pose proof (send_data_G s (outgoing_header s) f) as Hd.
       destruct (send_data _ _ f) as [s1 r|s1 e|]; cbn [sG] in *; auto.
-      destruct r; cbn [sG]; auto; [|split; [exact Hd|discriminate]].
+      destruct r; cbn [sG]; auto; [|split; [apply GE_G; exact Hd|discriminate]].
       cbv zeta.
       match goal with |- sG _ (match ?o with _ => _ end) => destruct o as [s2|] eqn:E end; [|exact I].
       assert (F2 : G s1 s2).
@@ -288,7 +307,7 @@ Proof.
   apply sG_bind; [apply new_data_loop_G|].
   intros s3 tl. destruct tl as [[sq sz]|]; [|apply G_refl].
   destruct (pop_mtu_probe _ _) as [segs' popped]. destruct popped; cbn [sG]; [g_same|].
-  split; [apply G_refl|discriminate].
+  split; [apply GE_G, G_refl|discriminate].
 Qed.
 
 Lemma maybe_send_ack_G (s : vsock) : sG s (maybe_send_ack s).
@@ -313,7 +332,7 @@ Lemma split_cont_G (s0 s2 : vsock) tl :
             | None => SPanic
             end).
 Proof.
-  intros F2. destruct (_ <? _); [split; [exact F2|discriminate]|].
+  intros F2. destruct (_ <? _); [split; [apply GE_G; exact F2|discriminate]|].
   destruct (segment_loop _ _ _ _ _ _) as [[[ss' segs'] rem]|]; [|exact I].
   cbn [sG]. eapply G_trans; [exact F2|g_same].
 Qed.
@@ -348,7 +367,7 @@ Proof. unfold restart_remote_inactivity_timer. g_same. Qed.
 Lemma force_ack_G (s : vsock) : G s (force_immediate_ack s).
 Proof. unfold force_immediate_ack. g_same. Qed.
 
-(* transition_to_fin_wait_1 satisfies G0 always, G only when the channel is closed *)
+(* transition_to_fin_wait_1 satisfies G0, not W *)
 Lemma transition_G0 (s : vsock) : G0 s (transition_to_fin_wait_1 s).
 Proof.
   unfold transition_to_fin_wait_1.
@@ -357,8 +376,15 @@ Proof.
      split; [vsimpl; auto|reflexivity]).
 Qed.
 
-Lemma transition_G_closed (s : vsock) : v_inbox_closed s = true -> G s (transition_to_fin_wait_1 s).
-Proof. intro Hc. split; [apply transition_G0|]. intro H. congruence. Qed.
+Lemma maybe_send_fin_err (s s' : vsock) e : maybe_send_fin s = SErr s' e -> e = ErrSend.
+Proof.
+  unfold maybe_send_fin. destruct (v_transport_pending s) eqn:Ep; [discriminate|].
+  destruct (our_fin_if_unacked (v_state s)) as [f|]; [|discriminate].
+  destruct (negb _); [discriminate|].
+  destruct (send_control_packet_cases s (hdr_with (outgoing_header s) ST_FIN f None) Ep)
+    as [(s1 & Hs & ->)|[(s1 & Hs & ->)|(s1 & Hs & ->)]]; cbn [sbind]; try discriminate.
+  intro H; injection H as _ <-. reflexivity.
+Qed.
 
 (* ------------------------------------------------------------------ incoming messages *)
 Definition tG (s : vsock) (r : table_res) : Prop :=
@@ -377,7 +403,7 @@ Lemma process_incoming_message_G (s : vsock) m : sGr s (process_incoming_message
 Proof.
   unfold process_incoming_message. cbv zeta.
   pose proof (state_table_G s (m_hdr m)) as Ht.
-  destruct (state_table s (m_hdr m)) as [s1|s1 e|s1]; cbn [tG sGr] in *; auto.
+  destruct (state_table s (m_hdr m)) as [s1|s1 e|s1]; cbn [tG sGr] in *; auto using GE_G.
   destruct (remove_up_to_ack _ _ _ _) as [segs1 res].
   match goal with |- sGr _ (match ?o with Some _ => _ | None => _ end) => destruct o as [rtte1|] end; [|exact I].
   destruct (cc_on_ack _ _ _ _ _) as [cc3|]; [|exact I].
@@ -393,7 +419,7 @@ Proof.
     match goal with |- sGr _ (match add_err r with Some e => SErr ?x e | None => _ end) =>
       assert (F4 : G s x); [|abs_as x F4 s4] end.
     { eapply G_trans; [exact F2|]. eapply G_trans; [|apply add_wakes_G]. g_same. }
-    destruct (add_err r); [exact F4|].
+    destruct (add_err r); [apply GE_G; exact F4|].
     match goal with |- sGr _ (if _ then _ else SOk ?x _) =>
       assert (F5 : G s x); [|abs_as x F5 s5] end.
     { destruct r; exact F4. }
@@ -408,7 +434,7 @@ Proof.
       assert (F5 : G s x); [|abs_as x F5 s5] end.
     { eapply G_trans; [exact F2|]. eapply G_trans; [|apply add_wakes_G].
       unfold force_immediate_ack. g_same. }
-    destruct (add_err r); [exact F5|].
+    destruct (add_err r); [apply GE_G; exact F5|].
     destruct (mark_vsock_closed _) as [tx1 w2]. cbn [sGr].
     eapply G_trans; [exact F5|]. eapply G_trans; [|apply add_wakes_G]. g_same.
 Qed.
@@ -422,12 +448,15 @@ Lemma recv_empty_G (s : vsock) (acc : on_ack_result) :
         else SOk (set_inbox_waker s true) (acc, false)).
 Proof.
   intro Hi. destruct (v_inbox_closed s) eqn:Hc; [|cbn [sG]; g_same].
-  eapply sG_weaken; [apply transition_G_closed; exact Hc|].
-  apply sG_bind; [apply maybe_send_fin_G|].
-  intros s2 _. cbn [sG]. split.
-  - split; [vsimpl; destruct (v_state s2); exact I|].
-    split; [exists []; split; [reflexivity|constructor]|]. split; [vsimpl; auto|reflexivity].
-  - intros _ f Hf. vsimpl. discriminate.
+  pose proof (transition_G0 s) as HT. pose proof (maybe_send_fin_G (transition_to_fin_wait_1 s)) as HF.
+  destruct (maybe_send_fin (transition_to_fin_wait_1 s)) as [s2 b|s2 e|] eqn:Em; cbn [sbind sG] in *; [| |exact I].
+  - split.
+    + eapply G0_trans; [exact HT|]. eapply G0_trans; [apply G_G0; exact HF|].
+      split; [vsimpl; destruct (v_state s2); exact I|].
+      split; [exists []; split; [reflexivity|constructor]|]. split; [vsimpl; auto|reflexivity].
+    + intros f Hf. vsimpl. discriminate.
+  - destruct HF as [(HF & _) He]. split; [|exact He]. split; [eapply G0_trans; eauto|].
+    right. split; [exact Hc|]. eapply maybe_send_fin_err; exact Em.
 Qed.
 
 Lemma recv_loop_G : forall fuel s acc, sGr s (recv_loop cci fuel s acc).
@@ -460,7 +489,7 @@ Proof.
   { destruct (0 <? _); [|apply G_refl].
     eapply sGr_weaken; [apply acked_counts_as_sent_G|].
     generalize (acked_counts_as_sent s2). intro s2'.
-    destruct (truncate_front _ _) as [tx1 tr]. destruct tr; cbn [sGr]; [|g_same].
+    destruct (truncate_front _ _) as [tx1 tr]. destruct tr; cbn [sGr]; [|apply GE_G; g_same].
     destruct (wake_writer tx1) as [tx2 w]. eapply G_trans; [|apply add_wakes_G]. g_same. }
   intros s3 _. destruct (rv_phase _); try apply G_refl.
   destruct (calc_pipe _ _ _ _ _) as [[[segs' pipe] recalc]|]; [|exact I].
@@ -477,7 +506,7 @@ Proof.
         SOk (set_t_syn_ack_resend (set_state s1 (SynAckSent (c + 1)))
               (timer_arm (v_t_syn_ack_resend s1) (v_now s1) SYNACK_RESEND_INTERNAL true)) tt
         else SOk s1 tt))).
-  { intros c Hl. destruct (_ =? _); [split; [apply G_refl|discriminate]|].
+  { intros c Hl. destruct (_ =? _); [split; [apply GE_G, G_refl|discriminate]|].
     pose proof (send_ack_G s) as H. unfold send_ack in H |- *.
     match goal with |- context [send_control_packet s ?h] =>
       pose proof (send_control_packet_fields s h) as Hf end.
@@ -629,29 +658,30 @@ Definition early (s : vsock) (r : body_res) : Prop :=
   match r with
   | BrRestart s' => G s s'
   | BrReturn s' PollPending => G s s'
-  | BrReturn s' (PollReadyErr e) => exists s1, G s s1 /\ s' = just_before_death s1 (Some e)
+  | BrReturn s' (PollReadyErr e) => exists s1, GE s s1 e /\ s' = just_before_death s1 (Some e)
   | BrReturn _ _ => False
   | BrPanic => True
   end.
 
 Lemma bail_walk {A} (P : body_res -> Prop) (s0 s : vsock) (m : step A) k :
   G s0 s -> sGr s m -> (forall r, early s0 r -> P r) ->
-  (forall s1 a, G s0 s1 -> v_restart s1 = false -> P (k s1 a)) -> P (bail m k).
+  (forall s1 a, m = SOk s1 a -> G s0 s1 -> v_restart s1 = false -> P (k s1 a)) -> P (bail m k).
 Proof.
   intros F Hm He Hk. unfold bail. destruct m as [s1 a|s1 e|]; cbn [sGr] in Hm.
   - assert (F1 : G s0 s1) by (eapply G_trans; eauto).
-    destruct (v_restart s1) eqn:R; [apply He; exact F1|apply Hk; assumption].
-  - apply He. unfold die. cbn [early]. exists s1. split; [eapply G_trans; eauto|reflexivity].
+    destruct (v_restart s1) eqn:R; [apply He; exact F1|apply Hk; auto].
+  - apply He. unfold die. cbn [early]. exists s1. split; [eapply GE_trans; eauto|reflexivity].
   - apply He. exact I.
 Qed.
 
 Lemma pend_walk {A} (P : body_res -> Prop) (s0 s : vsock) (m : step A) k :
   G s0 s -> sGr s m -> (forall r, early s0 r -> P r) ->
-  (forall s1 a, G s0 s1 -> v_restart s1 = false -> v_transport_pending s1 = false -> P (k s1 a)) ->
+  (forall s1 a, m = SOk s1 a -> G s0 s1 -> v_restart s1 = false -> v_transport_pending s1 = false ->
+                P (k s1 a)) ->
   P (pend m k).
 Proof.
   intros F Hm He Hk. unfold pend. eapply bail_walk; eauto.
-  intros s1 a F1 R. destruct (v_transport_pending s1) eqn:T; [apply He; exact F1|].
+  intros s1 a Em F1 R. destruct (v_transport_pending s1) eqn:T; [apply He; exact F1|].
   rewrite R. apply Hk; assumption.
 Qed.
 
@@ -660,24 +690,26 @@ Proof. unfold body_start. g_same. Qed.
 
 Lemma body_front_walk (P : body_res -> Prop) k (s0 : vsock) :
   (forall r, early s0 r -> P r) ->
-  (forall s6, G s0 s6 -> v_restart s6 = false -> v_transport_pending s6 = false -> P (k s6)) ->
+  (forall s4 s5 s6, G s0 s4 -> split_tx_queue_into_segments cci s4 = SOk s5 tt ->
+                    send_tx_queue cci s5 = SOk s6 tt -> G s0 s6 ->
+                    v_restart s6 = false -> v_transport_pending s6 = false -> P (k s6)) ->
   P (body_front k s0).
 Proof.
   intros He Hk. unfold body_front.
-  eapply pend_walk; [apply body_start_G|apply sG_sGr, maybe_send_syn_ack_G|exact He|]. intros s1 _ F1 _ _.
+  eapply pend_walk; [apply body_start_G|apply sG_sGr, maybe_send_syn_ack_G|exact He|]. intros s1 _ _ F1 _ _.
   eapply pend_walk; [exact F1| |exact He|].
   { destruct (immediate_ack_to_transmit s1); [apply sG_sGr, send_ack_G|apply G_refl]. }
-  intros s2 _ F2 _ _.
-  eapply pend_walk; [exact F2|apply process_all_G|exact He|]. intros s3 _ F3 _ _.
+  intros s2 _ _ F2 _ _.
+  eapply pend_walk; [exact F2|apply process_all_G|exact He|]. intros s3 _ _ F3 _ _.
   destruct (rx_flush (v_rx s3)) as [[rx1 fr] w]. destruct fr; cbv beta iota zeta; [|apply He; exact I].
   assert (F4 : G s0 (add_wakes (set_rx s3 rx1) (rx_wakes w))).
   { eapply G_trans; [exact F3|]. eapply G_trans; [|apply add_wakes_G]. g_same. }
   abs_as (add_wakes (set_rx s3 rx1) (rx_wakes w)) F4 s4.
   destruct (timer_expired _ _).
-  { apply He. unfold die. cbn [early]. exists s4. split; [exact F4|reflexivity]. }
-  eapply bail_walk; [exact F4|apply sG_sGr, split_G|exact He|]. intros s5 _ F5 _.
-  eapply pend_walk; [exact F5|apply sG_sGr, send_tx_queue_G|exact He|]. intros s6 _ F6 R6 T6.
-  apply Hk; assumption.
+  { apply He. unfold die. cbn [early]. exists s4. split; [apply GE_G; exact F4|reflexivity]. }
+  eapply bail_walk; [exact F4|apply sG_sGr, split_G|exact He|]. intros s5 [] E5 F5 _.
+  eapply pend_walk; [exact F5|apply sG_sGr, send_tx_queue_G|exact He|]. intros s6 [] E6 F6 R6 T6.
+  apply (Hk s4 s5 s6); assumption.
 Qed.
 
 (* what a whole poll_body does, under G0 *)
@@ -694,14 +726,14 @@ Definition bG0 (s0 : vsock) (r : body_res) : Prop :=
 Lemma early_bG0 s0 r : early s0 r -> bG0 s0 r.
 Proof.
   destruct r as [s' [| |e|]|s'|]; cbn [early bG0]; auto using G_G0; try tauto.
-  intros (s1 & H & E). exists s1. split; [apply G_G0; exact H|exact E].
+  intros (s1 & H & E). exists s1. split; [apply H|exact E].
 Qed.
 
 Definition sG0 {A} (s : vsock) (m : step A) : Prop :=
   match m with SOk s' _ | SErr s' _ => G0 s s' | SPanic => True end.
 
 Lemma sG_sG0 {A} s (m : step A) : sG s m -> sG0 s m.
-Proof. destruct m; cbn [sG sG0]; [apply G_G0|intros [H _]; apply G_G0; exact H|auto]. Qed.
+Proof. destruct m; cbn [sG sG0]; [apply G_G0|intros [[H _] _]; exact H|auto]. Qed.
 
 Lemma pend_G0 {A} (s0 s : vsock) (m : step A) k :
   G0 s0 s -> sG0 s m -> (forall s1 a, G0 s0 s1 -> bG0 s0 (k s1 a)) -> bG0 s0 (pend m k).
@@ -740,7 +772,7 @@ Theorem poll_body_G0 (s0 : vsock) : bG0 s0 (poll_body cci s0).
 Proof.
   rewrite poll_body_parts. apply body_front_walk.
   - apply early_bG0.
-  - intros s6 F6 _ _. apply body_back_G0. apply G_G0. exact F6.
+  - intros s4 s5 s6 _ _ _ F6 _ _. apply body_back_G0. apply G_G0. exact F6.
 Qed.
 
 (* the restart loop *)
